@@ -3,8 +3,8 @@
    the trace without logger records (callbacks cannot see the logger's records). *)
 From Coq Require Import List Arith Bool NArith.
 From FFSM2 Require Import Model.TaskList Model.BitArray Model.BitStream Model.Plan Model.Ancestors Model.Machine
-  Proofs.BitArrayProofs Proofs.MachineFrame Proofs.MachinePlan Proofs.MachineLife Proofs.GuardProofs Proofs.CycleProofs Proofs.PlanStep
-  Proofs.SerialProofs Proofs.LogProofs Proofs.MachineTop Model.Multi Generated.InitFacts Proofs.ConstructProofs Proofs.LifeMonitor Proofs.ActivationRounds Proofs.IndexSafety Proofs.FeatureProofs.
+  Proofs.BitArrayProofs Proofs.TaskListProofs Proofs.TaskListRun Proofs.PlanProofs Proofs.MachineFrame Proofs.MachinePlan Proofs.MachineLife Proofs.GuardProofs Proofs.CycleProofs Proofs.PlanStep
+  Proofs.SerialProofs Proofs.LogProofs Proofs.MachineTop Model.Multi Generated.InitFacts Proofs.ConstructProofs Proofs.LifeMonitor Proofs.ActivationRounds Proofs.IndexSafety Proofs.FeatureProofs Model.Script Proofs.Contract Proofs.Histories Proofs.StatusBits.
 Import ListNotations.
 
 (* for every history: running with a logger attached at any point(s) and then forgetting the records equals running
